@@ -19,7 +19,7 @@ From ClapModel Require Import Complete.EngineModel Complete.EngineProofs.
 From ClapModel Require Import Parse.Cmd Parse.Build Parse.Valid Parse.Matcher Parse.Errors Parse.Validator Parse.Parser.
 From ClapModel Require Import ParseProofs.Spelling ParseProofs.Dispatch ParseProofs.ErrorSound.
 From ClapModel Require Import ParseProofs.Actions ParseProofs.ActionsLoop ParseProofs.ActionsTop ParseProofs.Chain ParseProofs.ChainWide.
-From ClapModel Require Import Complete.EngineAccept Complete.EngineLevel Complete.EngineLine Complete.EngineItems Complete.EngineWide.
+From ClapModel Require Import Complete.EngineAccept Complete.EngineLevel Complete.EngineLine Complete.EngineOptState Complete.EngineItems Complete.EngineWide.
 From Coq Require Import ZArith Lia List Bool.
 From RecordUpdate Require Import RecordSet.
 Import RecordSetNotations.
@@ -150,3 +150,110 @@ Proof.
   split; [vmr|]. split; vmr.
 Qed.
 End TermLine.
+
+(** * A word that looks like an option while an option is still collecting values (PARTIALLY FILLED occurrences)
+
+    Both machines stand in "option [a] pending" with any number of values ([Opt a k] / [PSOpt (a_id a)]); no argument
+    of the level accepts hyphen values or negative numbers ([hyphen_free]).  A word lexed as an exact long key or as a
+    non-empty short cluster ([dash_tok]) is handled by BOTH exactly as between arguments: the pending occurrence ends.
+    Whether it had enough values is decided by the parser when it flushes it (the next [react] / [resolve_pending]:
+    with fewer than the minimum the line is rejected - TooFewValues / WrongNumberOfValues, never an "unknown" error);
+    the engine does not judge that. *)
+Theorem pending_option_dash_agreement pc cur tok a : elevel pc cur -> hyphen_free pc ->
+  find_arg pc (a_id a) = Some a -> dash_tok pc tok ->
+  (forall k pi evaf, shadow_step tok cur pi false (Opt a k) evaf = shadow_step tok cur pi false ValueDone evaf) /\
+  (forall rest pos vaf st, fs_skip st = 0 ->
+     parse_loop pc (tok :: rest) (mkL (PSOpt (a_id a)) pos vaf false) st = parse_loop pc (tok :: rest) (lsV pos vaf) st).
+Proof.
+  intros L Hhf Hf Hd. destruct (hyphen_free_arg pc a Hhf Hf) as [Hh Hn]. split.
+  - intros k pi evaf. destruct Hd as [Hns [He Hlex]].
+    apply (eng_opt_as_vd pc cur L tok a k pi evaf Hh (hyphen_free_pos pc cur L pi Hhf) Hns He).
+    destruct Hlex as [[f [v [b [Hl _]]]]|[_ [r [Hs _]]]]; [left; rewrite Hl; discriminate|right; rewrite Hs; discriminate].
+  - intros rest pos vaf st Hsk.
+    exact (loop_opt_dash pc tok a rest pos vaf st Hf Hh Hn (no_hyphen_of_args pc Hhf) Hsk Hd).
+Qed.
+
+(** Non-vacuity: `p(--pf/-f; --qf/-q; --opt/-o <v>{1..3} Append; --two <v>{2..3}) -> sub(--so)`; the line `--opt a --pf -o b c -q sub` is in
+    [pline] (two partially filled occurrences, each followed by a flag), the engine stands at `sub`, the completed line
+    parses.  With the minimum not reached (`--two a --pf`) the parser rejects the line with TooFewValues (the engine
+    still walks on: its candidates are judged on accepted prefixes only). *)
+Module PartialLine.
+Definition w_opt : bytes := [111; 112; 116].
+Definition w_two : bytes := [116; 119; 111].
+Definition w_pf : bytes := [112; 102].
+Definition w_qf : bytes := [113; 102].
+Definition w_sub : bytes := [115; 117; 98].
+Definition w_so : bytes := [115; 111].
+Definition ddw (s : bytes) : bytes := 45 :: 45 :: s.
+Definition ext : cmd :=
+  (cmd_new [112])
+    <| c_args := [ (arg_new w_pf) <| a_long := Some w_pf |> <| a_short := Some 102 |> <| a_action := Some ASetTrue |>;
+                   (arg_new w_qf) <| a_long := Some w_qf |> <| a_short := Some 113 |> <| a_action := Some ASetTrue |>;
+                   (arg_new w_opt) <| a_long := Some w_opt |> <| a_short := Some 111 |> <| a_action := Some AAppend |>
+                     <| a_num := Some {| vmin := 1; vmax := 3 |} |>;
+                   (arg_new w_two) <| a_long := Some w_two |> <| a_action := Some ASet |>
+                     <| a_num := Some {| vmin := 2; vmax := 3 |} |> ] |>
+    <| c_subs := [ (cmd_new w_sub) <| c_args := [ (arg_new w_so) <| a_long := Some w_so |> <| a_action := Some ASetTrue |> ] |> ] |>.
+Definition root : cmd := build_self (with_bin ext [112]).
+Definition pc1 : cmd := match build_subcommand root w_sub with Some x => x | None => cmd_new [] end.
+Definition a_opt : arg := match find_arg root w_opt with Some a => a | None => arg_new [] end.
+Definition pre0 : list bytes := ddw w_opt :: [[97]] ++ ([ddw w_pf] ++ [[45; 111]; [98]; [99]; [45; 113]]).
+Definition line : list bytes := pre0 ++ w_sub :: [].
+
+Lemma ex_hyphen_free : hyphen_free root.
+Proof. vm_compute. reflexivity. Qed.
+
+Lemma ex_flag_long : item18 root [ddw w_pf] (react_all root [long_occ (match find_arg root w_pf with Some a => a | None => arg_new [] end) []]).
+Proof. apply i18_base. eapply it_flag; [solve_nosub|vmr|vmr|vmr]. Qed.
+
+Lemma ex_flag_short : exists F, item18 root [[45; 113]] F.
+Proof. eexists. apply i18_base. flag_cluster 113. Qed.
+
+Lemma ex_pitems : exists F, pitems18 root false 1 pre0 F 1.
+Proof.
+  destruct ex_flag_short as [Fs Hs].
+  eexists. unfold pre0.
+  (* `--opt a`, partially filled, then `--pf` *)
+  eapply (p18_opt root false 1 (ddw w_opt :: [[97]] ++ [ddw w_pf]) _ [[45; 111]; [98]; [99]; [45; 113]]).
+  { eapply (i18_long_partial root (ddw w_opt) w_opt a_opt _ [[97]] [ddw w_pf]);
+      [exact ex_hyphen_free|solve_nosub|vmr|vmr|vmr|vmr|vmr|vmr|vm_compute; reflexivity| |exact ex_flag_long].
+    apply Forall_cons; [split; [solve_nosub|split; [solve_plain|vmr]]|apply Forall_nil]. }
+  (* `-o b c`, partially filled, then `-f` *)
+  eapply (p18_opt root true 1 ([45; 111] :: [[98]; [99]] ++ [[45; 113]]) _ []); [|apply p18_nil].
+  eapply (i18_short_partial root [45; 111] [111] 111 a_opt _ [[98]; [99]] [[45; 113]]);
+    [exact ex_hyphen_free|solve_nosub|vmr|vmr|vmr|vmr|vmr|vmr|vmr|apply no_hyphen_of_args; exact ex_hyphen_free|vmr|vmr
+    |vm_compute; reflexivity| |exact Hs].
+  repeat (apply Forall_cons; [split; [solve_nosub|split; [solve_plain|vmr]]|]). apply Forall_nil.
+Qed.
+
+Lemma ex_pline : pline root line pc1 1 false.
+Proof.
+  destruct ex_pitems as [F Hp]. unfold line.
+  eapply (pl_down root pre0 F PSValuesDone 1 ValueDone w_sub _ pc1).
+  - apply lvlw_b_ok. vmr.
+  - apply b18_plain. exact Hp.
+  - exact I.
+  - intros E. vm_compute in E. discriminate E.
+  - vmr.
+  - vmr.
+  - vmr.
+  - vmr.
+  - eapply (pl_here pc1 []); [apply lvlw_b_ok; vmr|apply p18_nil].
+Qed.
+
+Definition kind_of (o : outcome) : option ekind := match o with OErr e => Some (e_kind e) | _ => None end.
+
+Example ex_partial_line_hyps :
+  unb_tree 5 ext = true /\ is_set s_no_binary_name ext = false /\
+  N.of_nat (length line) + 2 <= usize_max /\ pline root line pc1 1 false /\
+  (match complete_model [] ext ([112] :: line ++ [[45; 45]]) (N.of_nat (S (length line))) with
+   | COk l => existsb (fun cd => beq (cd_value cd) (ddw w_so) && cand_classw_b pc1 1 false [45; 45] cd) l
+   | _ => false end = true) /\
+  match parse_top ext ([112] :: line ++ [ddw w_so]) with OOk _ => true | _ => false end = true /\
+  (* below the minimum: rejected by the flush, not as an unknown argument *)
+  kind_of (parse_top ext [[112]; ddw w_two; [97]; ddw w_pf]) = Some ETooFewValues.
+Proof.
+  split; [vmr|]. split; [vmr|]. split; [vm_compute; discriminate|]. split; [exact ex_pline|].
+  split; [vmr|]. split; vmr.
+Qed.
+End PartialLine.
